@@ -29,6 +29,26 @@ type vC15Sink struct {
 	msgs     []*dns.Msg
 	modified string // message differed from its snapshot when the fallback received it
 	check    func() string
+	// other, when set, runs inside Write BEFORE the sink takes its copy of the bytes: other requests'
+	// packs through the shared pool, scheduled between the hand-over of the borrowed slice and the
+	// moment the transport has copied it (a schedule the property quantifies over)
+	other func()
+}
+
+// vC15OtherRequests packs three large, name-heavy, non-zero messages through the shared pool — what
+// concurrent requests on the same P do to a pooled state that is not checked out.
+func vC15OtherRequests() {
+	for i := 0; i < 3; i++ {
+		j := new(dns.Msg)
+		j.SetQuestion(fmt.Sprintf("other-request-%d.example.net.", i), dns.TypeTXT)
+		j.Response = true
+		j.Compress = i%2 == 0
+		fill := strings.Repeat(string(rune('X'+i)), 250)
+		for k := 0; k < 12; k++ {
+			j.Answer = append(j.Answer, &dns.TXT{Hdr: dns.RR_Header{Name: fmt.Sprintf("r%d.other-request-%d.example.net.", k, i), Rrtype: dns.TypeTXT, Class: dns.ClassINET, Ttl: 0xEEEEEEEE}, Txt: []string{fill}})
+		}
+		_, _ = wire.PackClone(j)
+	}
 }
 
 func (s *vC15Sink) LocalAddr() net.Addr { return &net.UDPAddr{IP: net.IPv4(127, 0, 0, 1), Port: 53} }
@@ -46,6 +66,9 @@ func (s *vC15Sink) WriteMsg(m *dns.Msg) error {
 	return nil
 }
 func (s *vC15Sink) Write(b []byte) (int, error) {
+	if s.other != nil {
+		s.other()
+	}
 	s.wrote = append(s.wrote, append([]byte{}, b...))
 	return len(b), nil
 }
@@ -124,6 +147,9 @@ func TestVerifC15Consumers(t *testing.T) {
 				tpHandled, _ = wire.TryPack(vc15gen.VC15DeepCopy(msg), func([]byte) error { return nil })
 			}()
 			sink := &vC15Sink{internal: internal}
+			if r.Intn(3) != 0 {
+				sink.other = vC15OtherRequests
+			}
 			sink.check = func() string { return vc15gen.VC15Diff(msg, snap, slots) }
 			ch := NewChain(nil)
 			req := new(dns.Msg)
